@@ -198,6 +198,13 @@ func viewSig(v *manager.View, withTags bool, battery []string, convs []string) *
 			sig.Err = fmt.Sprintf("Stream(%d): %v", sl.ID, err)
 			return sig
 		}
+		if bs, err := oracle.SigOf(sc.Stream()); err != nil {
+			sig.Err = fmt.Sprintf("Stream(%d): %v", sl.ID, err)
+			return sig
+		} else if bs.ContentKey() != sl.Key {
+			sig.Err = fmt.Sprintf("Stream(%d) returns another version of the stream (%d+%d bytes, %d packets) than the view's stream list (%d bytes, %d packets)", sl.ID, len(bs.Data[0]), len(bs.Data[1]), len(bs.Packets), sl.Bytes, sl.Packets)
+			return sig
+		}
 	}
 	if len(battery) > 0 {
 		sig.Search = map[string][]uint64{}
